@@ -49,3 +49,5 @@ CFG = dict(
     note="the model reproduces the CSV rows of both binaries from the abstract run description in the case line; a "
          "difference is a concrete run (rebuilt from the case line by `vapps obs`) on which a binary departs from it",
 )
+
+CFG["level_extra"] = ("NOTE: the whole-run completeness theorem assumes files that follow one another without a gap (the binaries' own `missing file` refusal, not listed by the property).")
